@@ -190,6 +190,10 @@ func (r Condition) SetOperator(op Operator) Condition {
 
 func (r *condition) setOperator(op Operator) {
 	if op != nil {
+		if isPtr(typOf(op)) && valOf(op).IsNil() {
+			// typed nil pointer: methods cannot be called
+			return
+		}
 		if len(op.Context()) > 0 && len(op.String()) > 0 {
 			r.op = op
 		}
